@@ -209,6 +209,29 @@ def assign_chain(n, pfx):
     return Piece(pfx, "\n".join(L))
 
 
+@family("taint_diamonds")
+def taint_diamonds(n, pfx):
+    """n diamonds b_i = d_(i-1); c_i = d_(i-1); d_i = b_i + c_i hanging off the tainted parameter and leading to no sink
+    (7^n simple paths through the SFG), then the sink of the parameter itself: a reported flow whose path search meets a
+    dead-end region with many routes first"""
+    L = ["def %sentry(p):" % pfx, "    d0 = p"]
+    for i in range(1, n + 1):
+        L += ["    b%d = d%d" % (i, i - 1), "    c%d = d%d" % (i, i - 1), "    d%d = b%d + c%d" % (i, i, i)]
+    L += ["    sink(p)", "    return p", ""]
+    return Piece(pfx, "\n".join(L))
+
+
+@family("taint_copy_fan")
+def taint_copy_fan(n, pfx):
+    """a chain of n copies of the tainted parameter, each copy also feeding a second variable that is never used, before
+    the sink of the parameter (2^n simple paths)"""
+    L = ["def %sentry(p):" % pfx, "    a0 = p"]
+    for i in range(1, n + 1):
+        L += ["    a%d = a%d" % (i, i - 1), "    e%d = a%d + a%d" % (i, i, i - 1)]
+    L += ["    sink(p)", "    return p", ""]
+    return Piece(pfx, "\n".join(L))
+
+
 @family("state_squaring")
 def state_squaring(n, pfx):
     """z0 has two reaching constants (one if); a chain of n statements z_i = z_(i-1) + z_(i-1) then combines
